@@ -2,7 +2,7 @@
     settled) + the owner's not yet withdrawn NFT proceeds; claims and the withdrawal keep that,
     cannot fail for lack of the fee asset, and nothing is left at the end. *)
 From Coq Require Import Permutation.
-From LP Require Import Proofs.Tactics Proofs.LedgerBase Proofs.Loop Proofs.FisherYates Proofs.Frames Proofs.Nft.
+From LP Require Import Proofs.Tactics Proofs.LedgerBase Proofs.Loop Proofs.FisherYates Proofs.Frames Proofs.Filter Proofs.Alloc Proofs.Confirm Proofs.Nft.
 Open Scope N_scope.
 
 Definition fee_held (w : world) : N := bal w sc_addr (nft_tok (st w)) (nft_nonce (st w)).
@@ -100,3 +100,66 @@ Qed.
 (** everybody settled, proceeds withdrawn: nothing of the fee asset is left *)
 Theorem FeeInv_drained w : FeeInv w -> nft_payers (st w) = [] -> claimable_nft (st w) = 0 -> fee_held w = 0.
 Proof. intros [_ _ Hb] Hp Hc. rewrite Hb, Hp, Hc. cbn. lia. Qed.
+
+(** ** the confirmation window: every fee payment adds one fee, every blacklisted payer takes one back *)
+Lemma credit_parsed p : pay_wf p -> forall w from w1 t n a,
+  from <> sc_addr -> egld_or_single_esdt p = Ok (t, n, a) ->
+  credit_payment w from p = Ok w1 ->
+  st w1 = st w /\ bal w1 sc_addr t n = bal w sc_addr t n + a.
+Proof.
+  intros Hwf w from w1 t n a Hne Hp Hc.
+  split; [eapply credit_payment_st; eauto|].
+  destruct Hwf as [-> | [(x & ->) | (Hnn & Hall)]].
+  - cbn in Hp, Hc. inversion Hp; subst. inversion Hc; subst. lia.
+  - cbn in Hp. inversion Hp; subst. cbn in Hc. apply bind_ok in Hc. destruct Hc as (w2 & Ht & Hc). inversion Hc; subst.
+    apply transfer_ok in Ht. destruct Ht as [_ ->]. cbn. apply bal_after_to. congruence.
+  - unfold egld_or_single_esdt in Hp. rewrite (esdt_transfers_all p Hall) in Hp.
+    destruct p as [|[[t0 n0] a0] [|y p']]; try discriminate; [contradiction|]. inversion Hp; subst.
+    cbn in Hc. apply bind_ok in Hc. destruct Hc as (w2 & Ht & Hc). inversion Hc; subst.
+    apply transfer_ok in Ht. destruct Ht as [_ ->]. cbn. apply bal_after_to. congruence.
+Qed.
+
+Section HFeeWindow.
+Variable H : list N -> list N.
+
+Theorem FeeInv_confirm_nft v e b sd w w' r :
+  pay_wf (pay e) -> caller e <> sc_addr -> FeeInv w ->
+  exec H v e b sd w CConfirmNft = Ok (w', r) ->
+  FeeInv w' /\ nft_payers (st w') = nft_payers (st w) ++ [caller e] /\ claimable_nft (st w') = claimable_nft (st w).
+Proof.
+  intros Hwf Hcs [Hnd Hsft Hbal] E. unfold exec in E. cbn [payable bind] in E.
+  apply bind_ok in E. destruct E as (w1 & Hcr & E). cbn [dispatch] in E.
+  destruct (has_nft v); [|discriminate]. unfold ret0 in E. mon_inv.
+  match goal with Hd : confirm_nft _ _ = Ok _ |- _ => apply confirm_nft_spec in Hd;
+    destruct Hd as (_ & _ & _ & Hm & Hp & Hs & Hb & _) end.
+  destruct (credit_parsed (pay e) Hwf _ _ _ _ _ _ Hcs Hp Hcr) as [Hs1 Hb1]. cbn in Hs1, Hb1.
+  rewrite Hs1 in *.
+  split; [|rewrite Hs; cbn; auto].
+  constructor; rewrite ?Hs; cbn; auto.
+  - apply NoDup_snoc; [exact Hnd|]. intros Hi. apply mem_In in Hi. congruence.
+  - unfold fee_held. rewrite Hs, Hb. cbn. rewrite Hb1. unfold fee_held in Hbal. cbn in Hbal. rewrite Hbal.
+    rewrite app_length. cbn [length]. lia.
+Qed.
+
+End HFeeWindow.
+
+(** blacklisting a batch of participants (NFT contracts): every payer among them gets the fee back *)
+Theorem FeeInv_refund : forall l w w',
+  FeeInv w -> ~ In sc_addr l -> refund_nft_loop w l = Ok w' ->
+  FeeInv w' /\ claimable_nft (st w') = claimable_nft (st w).
+Proof.
+  induction l as [|u l IH]; intros w w' Hi Hsc E; cbn [refund_nft_loop] in E; [inversion E; subst; auto|].
+  destruct (mem u (nft_payers (st w))) eqn:Em.
+  - apply bind_ok in E. destruct E as (w1 & Ht & E).
+    apply transfer_ok in Ht. destruct Ht as [_ ->].
+    destruct Hi as [Hnd Hsft Hbal]. apply mem_In in Em.
+    destruct (swap_remove_facts u _ Hnd Em) as (Hnd1 & _ & _ & Hlen).
+    assert (Hu : u <> sc_addr) by (intros ->; apply Hsc; now left).
+    assert (Hi1 : FeeInv (set_st w (st w <| nft_payers := swap_remove u (nft_payers (st w)) |>)
+                          <| bal := bal_after (bal (set_st w (st w <| nft_payers := swap_remove u (nft_payers (st w)) |>)))
+                                              sc_addr u (nft_tok (st w)) (nft_nonce (st w)) (nft_amt (st w)) |>)).
+    { constructor; cbn; auto. unfold fee_held. cbn. rewrite bal_after_from by congruence.
+      unfold fee_held in Hbal. rewrite Hbal. destruct (nft_payers (st w)); [destruct Em|]. cbn [length] in *. nia. }
+    destruct (IH _ _ Hi1 ltac:(intros Hx; apply Hsc; now right) E) as [Hi' Hc']. split; [exact Hi'|rewrite Hc'; reflexivity].
+  - apply IH; auto. intros Hx; apply Hsc; now right.
+Qed.
